@@ -337,6 +337,34 @@ variant("ehlo-ext-stored-early",
 	extList := strings.Split(msg, "\\n")""", """	ext := make(map[string]string)
 	c.ext = ext
 	extList := strings.Split(msg, "\\n")"""))
+variant("didauth-before-235",
+  ("conn.go", """	c.writeResponse(235, EnhancedCode{2, 0, 0}, "Authentication succeeded")
+	c.didAuth = true""", """	c.didAuth = true
+	c.writeResponse(235, EnhancedCode{2, 0, 0}, "Authentication succeeded")"""))
+variant("shutdown-timer-select",
+  ("server.go", """	select {
+	case <-ctx.Done():
+		return ctx.Err()
+	case <-connDone:
+		return err
+	}""", """	done := ctx.Done()
+	select {
+	case <-connDone:
+		return err
+	case <-done:
+	}
+	return ctx.Err()"""))
+variant("notify-upper-whole-value",
+  ("conn.go", """			for _, val := range strings.Split(value, ",") {
+				notify = append(notify, DSNNotify(strings.ToUpper(val)))
+			}""", """			for _, val := range strings.Split(strings.ToUpper(value), ",") {
+				notify = append(notify, DSNNotify(val))
+			}"""))
+variant("rcpt-record-helper",
+  ("client.go", """	c.rcpts = append(c.rcpts, to)
+	return nil""", """	c.recordRcpt(to)
+	return nil"""),
+  ("client.go", "func (c *Client) Rcpt(to string, opts *RcptOptions) error {", "func (c *Client) recordRcpt(to string) {\n	c.rcpts = append(c.rcpts, to)\n}\n\nfunc (c *Client) Rcpt(to string, opts *RcptOptions) error {"))
 if sys.argv[1:] == ['--export']:
     out = [{"id": "benign-" + n, "edits": [{"file": f, "old": o, "new": w} for f, o, w in V[n]]} for n in V]
     json.dump(out, open('/verif/liveness/benign.json', 'w'), indent=1)
